@@ -142,6 +142,73 @@ def shape(e):
     return e[0]
 
 
+def unify_outcome(r):
+    """Normalised outcome of a unify run for variable 0 and the partition of the declared variables."""
+    if r.get("class") == "panic":
+        return "PANIC:%s:%s" % ((r.get("file") or "?").split("/")[-1], r.get("line"))
+    if r.get("class") != "ok":
+        return "ERR:%s" % ("stopped" if r.get("stopped") else r.get("class"))
+    vars_ = r["vars"]
+    names = {}
+
+    def rep(v):
+        root = vars_[v][0] if v < len(vars_) else v
+        return names.setdefault(root, len(names))
+    data = vars_[0][1]
+    exprs = sorted(json.dumps(rewrite(e, rep)) for e in (data or []))
+    part = {}
+    for v in range(NVARS):
+        part.setdefault(vars_[v][0], []).append(v)
+    return json.dumps([exprs, sorted(part.values())])
+
+
+def unify_level(res, dom, known_triples, tier, seed):
+    """The same law one level up: the pieces of evidence are given to the real `unify` as judgements about one
+    variable, and the order in which `unify` folds them is forced (sorted / reversed / seeded shuffles)."""
+    import random
+    rng = random.Random(seed ^ 0xC16)
+    d = common.Driver("rel", shim=True)
+    known_sets = set()
+    for tk in known_triples:
+        known_sets.add(json.dumps(sorted(json.dumps(x) for x in json.loads(tk))))
+    orders = [{"mode": "sorted", "seed": 0}, {"mode": "reversed", "seed": 0}] + [{"mode": "shuffle", "seed": k} for k in (1, 2, 3, 4)]
+    cases = [[a, b] for a in dom for b in dom if key(a) <= key(b)]
+    n_tri = 5000 if tier == "quick" else 60000
+    tried = 0
+    while tried < n_tri:
+        t = [rng.choice(dom) for _ in range(3)]
+        tried += 1
+        if json.dumps(sorted(json.dumps(x) for x in t)) in known_sets:
+            res.count("unify_level_skipped_known_triples")
+            continue
+        cases.append(t)
+    for i in range(0, len(cases), 400):
+        chunk = cases[i:i + 400]
+        reqs = []
+        for ev in chunk:
+            for o in (orders if len(ev) == 3 else orders[:2]):
+                reqs.append({"op": "unify", "nvars": NVARS, "judgements": [[0, e] for e in ev], "budget": 100_000, "fold": o,
+                             "rand_seed": 7})
+        r = d.call({"op": "batch", "reqs": reqs}, timeout=900)
+        if r.get("class") != "ok":
+            res.inconc("unify-level:batch:%s" % r.get("class"))
+            continue
+        it = iter(r["results"])
+        for ev in chunk:
+            outs = [unify_outcome(next(it)) for _ in (orders if len(ev) == 3 else orders[:2])]
+            res.evaluations += 1
+            res.judged += 1
+            res.count("unify_level_cases")
+            if len(ev) == 3:
+                res.nontriv("u:" + json.dumps(ev))
+            if len(set(outs)) > 1:
+                a, b = sorted(set(outs))[:2]
+                res.violation("unify:fold-order-dependent:%s" % "+".join(sorted(shape(e) for e in ev)),
+                              "the same evidence about one variable folded in different orders resolves differently: %s vs %s" % (a[:160], b[:160]),
+                              {"evidence": ev, "unify_level": True})
+    d.stop()
+
+
 def run(tier, seed, t0):
     res = common.Result()
     dom = domain(tier)
@@ -216,6 +283,7 @@ def run(tier, seed, t0):
                 tag = "changed" if listed is not None else "unlisted"
                 res.violation("merge:nonassoc-%s:%s" % (tag, cls), "(a+b)+c=%s but a+(b+c)=%s" % (left, right),
                               {"a": a, "b": b, "c": c, "left": left, "right": right})
+    unify_level(res, dom, known_triples, tier, seed)
     res.sample({"pair": [dom[2], dom[30]], "merge": outcome(dom[2], dom[30])})
     res.sample({"triple": [dom[-3], dom[3], dom[9]]})
     res.counters["domain_size"] = len(dom)
@@ -239,7 +307,9 @@ def run(tier, seed, t0):
         PROP, tier, seed, res, "exploration",
         "exhaustive over a %d-element evidence domain (Any, dynamic bytes, words of every usage x widths "
         "{unknown,8,32,160,192,256}, two mappings, two dynamic arrays, four fixed arrays, a conflict%s): all %d ordered "
-        "pairs (symmetry) and all %d ordered triples (associativity). distinct = distinct ordered pair/triple; "
+        "pairs (symmetry) and all %d ordered triples (associativity); the same law one level up: all unordered pairs and "
+        "sampled triples (excluding the recorded non-associative ones) as judgements about one variable, unified by the real "
+        "`unify` with its fold order forced to sorted / reversed / 4 shuffles. distinct = distinct ordered pair/triple; "
         "non-trivial = pairwise different elements and no Any" % (
             len(dom), "; plus packed encodings" if tier == "thorough" else "", len(dom) ** 2, len(dom) ** 3),
         t0, ["normalisation (conflict token, equality partition, least representative) is the equivalence C16 states"],
@@ -248,6 +318,19 @@ def run(tier, seed, t0):
 
 def replay(path):
     case = json.load(open(path))["case"]
+    if case.get("unify_level"):
+        d = common.Driver("rel", shim=True)
+        outs = []
+        for o in [{"mode": "sorted", "seed": 0}, {"mode": "reversed", "seed": 0}] + [{"mode": "shuffle", "seed": k} for k in (1, 2, 3, 4)]:
+            r = d.call({"op": "unify", "nvars": NVARS, "judgements": [[0, e] for e in case["evidence"]], "budget": 100_000,
+                        "fold": o, "rand_seed": 7})
+            outs.append(unify_outcome(r))
+        d.stop()
+        print(sorted(set(outs)))
+        if len(set(outs)) > 1:
+            print("VIOLATION-REPLAY unify:fold-order-dependent")
+            return 1
+        return 0
     d = common.Driver("rel", shim=False)
     els = [case[k] for k in ("a", "b", "c") if k in case]
 
